@@ -242,7 +242,9 @@ void llb_buildengine_task_is_complete(llb_task_interface_t ti,
                                       bool force_change) {
   auto coreti = reinterpret_cast<TaskInterface*>(&ti);
   std::vector<uint8_t> result(value->length);
-  memcpy(result.data(), value->data, value->length);
+  // An empty value has no storage on either side (memcpy requires non-null).
+  if (value->length > 0)
+    memcpy(result.data(), value->data, value->length);
   coreti->complete(std::move(result), force_change);
 }
 
